@@ -154,7 +154,7 @@ def make_matrix(rng, dtype, labels, ncol, ns, style):
 
 def cases(tier, seed):
     yield {"kind": "directed-purity", "seed": seed}
-    n = 1500 if tier == "quick" else 20000
+    n = 5000 if tier == "quick" else 30000
     for i in range(n):
         yield {"kind": "random", "i": i, "seed": seed}
 
